@@ -70,8 +70,10 @@ def strong_has(h, tag):
 def conditional_cells():
     from werkzeug.http import http_date as d
 
-    INM = [None, '"x"', 'W/"x"', '"y"', '"y", "x"', '"y", W/"x", "z"', 'W/"x", "y"', "*", "garbage", "", '"X"', '"*"', 'W/"*"', '"y", "*"', '""']
-    IM = [None, '"x"', 'W/"x"', '"y"', '"y", "x"', "*", "garbage", '"y", "z"', '"*"', '"y", W/"*"']
+    INM = [None, '"x"', 'W/"x"', '"y"', '"y", "x"', '"y", W/"x", "z"', 'W/"x", "y"', "*", "garbage", "", '"X"', '"*"', 'W/"*"', '"y", "*"', '""',
+           # optional whitespace around the list separator (RFC 9110 5.6.1: OWS "," OWS)
+           '"y" , "x"', '"y"\t,"x"', 'W/"x" ,"y"', '"y","x"']
+    IM = [None, '"x"', 'W/"x"', '"y"', '"y", "x"', "*", "garbage", '"y", "z"', '"*"', '"y", W/"*"', '"y" , "x"', '"x" ,"y"', '"y","z" , "q"']
     IMS = [None, d(T0 - timedelta(seconds=1)), d(T0), d(T0 + timedelta(seconds=1)), "Wed, 21 Oct 2015 09:28:00 +0200", "Wed, 21 Oct 2015 09:27:59 +0200",
            "nonsense", d(T0 + timedelta(days=400))]
     for inm, im, ims, etag, lm, method in itertools.product(INM, IM, IMS, ['"x"', 'W/"x"', None], [T0.replace(microsecond=500000), T0, None], ["GET", "HEAD", "POST"]):
